@@ -103,6 +103,8 @@ struct Parsed {
     seps: Vec<Option<Vec<u8>>>,
     /// anything before the first / after the last block that is not part of a block
     stray: Vec<Vec<u8>>,
+    /// the tagged modes: every line as `s` (separator) or `dN` (a line of file number N)
+    tags: Vec<String>,
 }
 
 fn split_lines(out: &[u8]) -> Vec<&[u8]> {
@@ -127,7 +129,7 @@ fn strip_eol(l: &[u8]) -> &[u8] {
 
 /// The block grammar of each mode; `names` are the files of the tree (paths as rg prints them).
 fn parse(mode: &str, out: &[u8], names: &BTreeSet<String>) -> Result<Parsed, String> {
-    let mut p = Parsed { blocks: vec![], seps: vec![], stray: vec![] };
+    let mut p = Parsed { blocks: vec![], seps: vec![], stray: vec![], tags: vec![] };
     let mut pending: Vec<Vec<u8>> = vec![]; // separator-looking lines whose role is not yet known
     let push_line = |p: &mut Parsed, pending: &mut Vec<Vec<u8>>, path: &str, line: &[u8]| {
         let same = p.blocks.last().map_or(false, |(q, _)| q == path);
@@ -154,6 +156,7 @@ fn parse(mode: &str, out: &[u8], names: &BTreeSet<String>) -> Result<Parsed, Str
                 let body = strip_eol(line);
                 if body == b"--" {
                     pending.push(line.to_vec());
+                    p.tags.push("s".into());
                     continue;
                 }
                 let text = String::from_utf8_lossy(body);
@@ -167,6 +170,7 @@ fn parse(mode: &str, out: &[u8], names: &BTreeSet<String>) -> Result<Parsed, Str
                     .max_by_key(|n| n.len());
                 match path {
                     Some(path) => {
+                        p.tags.push(format!("d{}", names.iter().position(|n| n == path).unwrap_or(0)));
                         if matches!(mode, "count" | "l" | "files") {
                             // one line per file: every line is a block of its own
                             if !p.blocks.is_empty() {
@@ -359,6 +363,24 @@ fn run_tree(case: &str, ctx: &mut Ctx, drv: &mut Driver, rep: &mut Report) {
             }
         };
         orders.insert(pn.blocks.iter().map(|(p, _)| p.clone()).collect());
+        // the cut itself: the Lean parser of the block grammar (theorem parse_join) must cut at the same places
+        if matches!(mode, "nohead" | "nohead-ctx" | "nohead-o") && pn.tags.len() < 20000 {
+            let reply = drv.ask(&format!("c08.parse (lines {})", pn.tags.join(" ")));
+            let mine = format!(
+                "blocks [{}] gaps [{}] stray {} 0",
+                pn.blocks.iter().map(|(path, b)| format!("{}:{}", names.iter().position(|x| x == path).unwrap_or(0), split_lines(b).len())).collect::<Vec<_>>().join(" "),
+                pn.seps.iter().map(|s| if s.is_some() { "1" } else { "0" }).collect::<Vec<_>>().join(" "),
+                0
+            );
+            rep.branch("grammar-cut-compared");
+            if reply != mine && pn.stray.is_empty() {
+                rep.violation(Violation {
+                    kind: "impl_vs_model".into(), class: "".into(),
+                    tie: "the harness's cut of the output into blocks vs BlockSpec.parse (theorem parse_join)".into(),
+                    case: case.to_string(), detail: format!("harness: {} / model: {}", &mine[..mine.len().min(200)], &reply[..reply.len().min(200)]),
+                });
+            }
+        }
         // C (multi-threaded path): the model rebuilds the -jN output from its blocks in the observed lock order
         let mn = drv.ask(&format!("c08.par {} {}", sep, blocks_sx(&pn.blocks)));
         if unhex(&mn).map_or(true, |m| m != canon_out(mode, &outn.stdout, &names)) {
@@ -537,11 +559,101 @@ fn run_nulldata(case: &str, ctx: &mut Ctx, drv: &mut Driver, rep: &mut Report) {
     remove_tree(&dir);
 }
 
+/// Files whose `--pre` command fails after its output was consumed: -j1 has already printed their results,
+/// -jN drops the worker's buffer.
+fn run_failpre(case: &str, ctx: &mut Ctx, drv: &mut Driver, rep: &mut Report) {
+    let f = fields(case);
+    let num = |k: &str| f.get(k).and_then(|v| v.parse::<u64>().ok());
+    let (Some(seed), Some(mode), Some(nfiles), Some(n)) = (num("seed"), f.get("mode"), num("files"), num("n")) else {
+        rep.notes.push(format!("unparsable case: {}", case));
+        return;
+    };
+    let mode = mode.as_str();
+    if !matches!(mode, "nohead" | "nohead-ctx" | "heading" | "count" | "json") {
+        rep.notes.push(format!("unparsable case: {}", case));
+        return;
+    }
+    ctx.counter += 1;
+    let dir = fresh_dir(&ctx.scratch, &format!("f{}", ctx.counter));
+    let tree = build_tree(&dir, seed, nfiles as usize, false, false);
+    let names: BTreeSet<String> = tree.names.iter().cloned().collect();
+    let script = ctx.scratch.join("failpre.sh");
+    if !script.exists() {
+        write_script(&script, "case \"$1\" in *[258].txt) cat; exit 3 ;; esac\nexec cat");
+    }
+    let mk = |threads: u64| -> Command {
+        let mut c = Command::new(&ctx.rg);
+        c.current_dir(&dir).args(mode_args(mode)).arg(format!("-j{}", threads)).arg("--pre").arg(&script).arg("needle");
+        c
+    };
+    let sep = sep_sx(mode, drv);
+    let out1 = run_cmd(&mut mk(1), None);
+    let outn = run_cmd(&mut mk(n), None);
+    rep.eval();
+    rep.branch("failpre");
+    let (Ok(p1), Ok(pn)) = (parse(mode, &out1.stdout, &names), parse(mode, &outn.stdout, &names)) else {
+        rep.violation(Violation { kind: "impl_vs_spec".into(), class: "".into(), tie: "block grammar".into(), case: case.to_string(), detail: "unparsable output".into() });
+        remove_tree(&dir);
+        return;
+    };
+    let failed: BTreeSet<String> = names.iter().filter(|nm| out1.stderr_str().contains(&format!("{}:", nm))).cloned().collect();
+    let item = |(path, b): &(String, Vec<u8>)| format!("({} {})", hex(b), failed.contains(path) as u8);
+    // C: both drivers through the model
+    let items1: Vec<String> = p1.blocks.iter().map(item).collect();
+    let m1 = drv.ask(&format!("c08.seqf {} 0a (items {})", sep, items1.join(" ")));
+    let mut itemsn: Vec<String> = pn.blocks.iter().map(item).collect();
+    for b in p1.blocks.iter().filter(|(p, _)| failed.contains(p) && !pn.blocks.iter().any(|(q, _)| q == p)) {
+        itemsn.push(item(b)); // a failed search: its position in the lock order does not matter
+    }
+    let mn = drv.ask(&format!("c08.parf {} (items {})", sep, itemsn.join(" ")));
+    if unhex(&m1).map_or(true, |m| m != canon_out(mode, &out1.stdout, &names)) || unhex(&mn).map_or(true, |m| m != canon_out(mode, &outn.stdout, &names)) {
+        rep.violation(Violation {
+            kind: "impl_vs_model".into(), class: "".into(),
+            tie: "rg -j1 / -jN with failing --pre commands vs Model.BufWriter.outSeqF / outParF (theorem C08_failing)".into(),
+            case: case.to_string(),
+            detail: format!("-j1 {} / -j{} {}", show(&out1.stdout[..out1.stdout.len().min(160)]), n, show(&outn.stdout[..outn.stdout.len().min(160)])),
+        });
+    }
+    // F: the same blocks
+    let bn: BTreeMap<String, Vec<u8>> = pn.blocks.iter().cloned().collect();
+    let mut dropped: Vec<&String> = vec![];
+    let mut other: Vec<String> = vec![];
+    for (path, b) in &p1.blocks {
+        match bn.get(path) {
+            Some(x) if x == b => {}
+            None if failed.contains(path) => dropped.push(path),
+            _ => other.push(path.clone()),
+        }
+    }
+    for (path, _) in &pn.blocks {
+        if !p1.blocks.iter().any(|(q, _)| q == path) { other.push(path.clone()); }
+    }
+    if !failed.is_empty() && p1.blocks.iter().any(|(p, _)| failed.contains(p)) { rep.nontrivial(case); }
+    if !dropped.is_empty() {
+        rep.violation(Violation {
+            kind: "impl_vs_spec".into(), class: "".into(),
+            tie: "rg -jN output is a permutation of the rg -j1 per-file blocks".into(),
+            case: case.to_string(),
+            detail: format!("-j1 prints the results of {:?} (their --pre command failed after its output was read), -j{} drops them", dropped, n),
+        });
+    }
+    if !other.is_empty() || out1.exit() != outn.exit() {
+        rep.violation(Violation {
+            kind: "impl_vs_spec".into(), class: "".into(),
+            tie: "rg -jN output is a permutation of the rg -j1 per-file blocks, same exit status".into(),
+            case: case.to_string(),
+            detail: format!("blocks differ for {:?}; exit {} / {}", other, out1.exit(), outn.exit()),
+        });
+    }
+    remove_tree(&dir);
+}
+
 fn run_case(case: &str, ctx: &mut Ctx, drv: &mut Driver, rep: &mut Report) {
     match case.split(' ').next() {
         Some("tree") => run_tree(case, ctx, drv, rep),
         Some("sort") => run_sort(case, ctx, drv, rep),
         Some("nulldata") => run_nulldata(case, ctx, drv, rep),
+        Some("failpre") => run_failpre(case, ctx, drv, rep),
         _ => rep.notes.push(format!("unparsable case: {}", case)),
     }
 }
@@ -554,7 +666,7 @@ fn main() {
         "tree: generated trees of 0-40 files (0-4000 lines each, match density 0-90%, up to 3 directory levels, optional slow \
          --pre on a third of the files, optional CRLF files with --crlf) searched with -j1 once and -jN (N in 2..16) 2x (thorough 6x) \
          in modes no-heading, no-heading -C1, heading, heading -C1, -o, -c, -l, --json, --files; sort: --sort/--sortr path with -jN \
-         vs -j1; nulldata: the two-file --null-data -C1 witness. Non-trivial: at least two non-empty blocks. Distinct by case text. \
+         vs -j1; nulldata: the two-file --null-data -C1 witness; failpre: a --pre command that exits 3 after its output on a third of the files. Non-trivial: at least two non-empty blocks. Distinct by case text. \
          JSON blocks are compared after removing the elapsed-time fields and the summary line.",
     );
     let rg = args.rg.clone().expect("C08 needs --rg");
@@ -578,6 +690,10 @@ fn main() {
             run_case(&case, &mut ctx, &mut drv, &mut rep);
         }
         run_case("nulldata n=2", &mut ctx, &mut drv, &mut rep);
+        for i in 0..(if args.thorough { 60 } else { 6 }) {
+            let mode = ["nohead", "heading", "nohead-ctx", "count", "json", "nohead"][i % 6];
+            run_case(&format!("failpre seed={} mode={} files={} n={}", rng.below(1 << 30), mode, rng.range(6, 30), rng.range(2, 16)), &mut ctx, &mut drv, &mut rep);
+        }
     }
     rep.write(&args);
 }
